@@ -110,10 +110,23 @@ MCIds == {"a", "b"}
 
 
 def run_split(ctx, label, beh, par=16, extra=(), random=2, pause_us=300, bat=True):
-    rc, js, err = ctx.harness(["proto-split", "-in", beh, "-tok", write_tokens(ctx), "-par", str(par), "-random", str(random),
-                               "-pause-us", str(pause_us), "-probe-every", "40", "-byte-at-a-time=%s" % ("true" if bat else "false")]
-                              + list(extra), timeout=3000)
+    def once(pause):
+        rc, js, err = ctx.harness(["proto-split", "-in", beh, "-tok", write_tokens(ctx), "-par", str(par), "-random", str(random),
+                                   "-pause-us", str(pause), "-probe-every", "40", "-byte-at-a-time=%s" % ("true" if bat else "false")]
+                                  + list(extra), timeout=3000)
+        return js
+    js = once(pause_us)
     st = js["stats"]
+
+    def consumed(st):
+        return st["segments_probed"] < 50 or st["segments_consumed_before_next_write"] >= 0.8 * st["segments_probed"]
+    if not consumed(st) and not (js.get("mismatches") or []):
+        # the server did not get to read most segments before the next one was written (busy machine): the kernel
+        # coalesces them and the segmentation under test is not the one delivered.  Deliver again with a longer pause.
+        ctx.log("split %s: only %d/%d probed segments were consumed before the next write; repeating with a %d us pause"
+                % (label, st["segments_consumed_before_next_write"], st["segments_probed"], pause_us * 10))
+        js = once(pause_us * 10)
+        st = js["stats"]
     mism = js.get("mismatches") or []
     ctx.log("split %s: %d streams, %d runs %s, %d reply frames, %d mismatches; %d/%d probed segments were consumed before the next write"
             % (label, st["streams"], st["runs"], json.dumps(st["runs_by_kind"], sort_keys=True), st["reply_frames_compared"],
@@ -124,10 +137,16 @@ def run_split(ctx, label, beh, par=16, extra=(), random=2, pause_us=300, bat=Tru
             common.report(ctx, rname(label), text, {"kind": "split", "stage": label, "extra": list(extra), "line": m["group"], "mismatch": m})
     if st["runs"] == 0 or st["reply_frames_compared"] == 0:
         raise common.Infra("stage %s compared nothing (vacuous)" % label)
-    if st["segments_probed"] >= 50 and st["segments_consumed_before_next_write"] < 0.8 * st["segments_probed"]:
-        raise common.Infra("stage %s: only %d of %d probed segments were read by the server before the next one was written "
-                           "(machine too loaded for the pause; segmentations would be coalesced)"
-                           % (label, st["segments_consumed_before_next_write"], st["segments_probed"]))
+    if not consumed(st):
+        # coalesced segments reduce what was covered, they cannot cause an alarm: recorded, and an error only when
+        # hardly any segmentation got through as sent
+        ctx.notes.append("stage %s: %d of %d probed segments were read by the server before the next one was written "
+                         "(busy machine); the remaining segment boundaries may have been coalesced by the kernel"
+                         % (label, st["segments_consumed_before_next_write"], st["segments_probed"]))
+        if st["segments_consumed_before_next_write"] < 0.4 * st["segments_probed"]:
+            raise common.Infra("stage %s: only %d of %d probed segments were read by the server before the next one was written, "
+                               "even with a %d us pause (machine too loaded; segmentations would be coalesced)"
+                               % (label, st["segments_consumed_before_next_write"], st["segments_probed"], pause_us * 10))
     return st, js
 
 
